@@ -17,7 +17,7 @@ import kneeliverse.postprocessing as pp
 import kneeliverse.knee_ranking as kr
 import kneeliverse.convex_hull as ch
 from rt.common import Harness, guarded, Timeout, tolist
-from rt import c20_link
+from rt import c20_link, c20_frame
 
 warnings.filterwarnings("ignore")
 
@@ -126,6 +126,16 @@ def run(H, tier, rng):
             H.violation("linking: %s %s at %s - %s" % (kind, text, where, detail), {"kind": kind, "where": where, "text": text},
                         witness_id="link:%s:%s:%s" % (f, fn, text), clause="linking")
     H.case(("link", len(obl)), sample={"linking_obligations": len(obl)})
+    # ---- (1b) purity, static part: every in-place mutation site has a root object allocated inside the function
+    fobl = c20_frame.analyse(os.path.join(repo, "src", "kneeliverse"))
+    H.notes["frame_obligations"] = len(fobl)
+    H.notes["frame_discharged"] = sum(1 for o in fobl if o[2])
+    for where, text, ok, detail in fobl:
+        if not ok:
+            f, fn, line = where.split(":")
+            H.violation("purity (static): %s at %s - %s" % (text, where, detail), {"where": where, "text": text},
+                        witness_id="frame:%s:%s:%s" % (f, fn, text), clause="purity-static")
+    H.case(("frame", len(fobl)), sample={"frame_obligations": len(fobl)})
     # ---- (2) purity / determinism / layout and dtype independence
     calls = registry()
     for cname, A, ints in curves():
